@@ -1,4 +1,5 @@
 import PdbModel.PdbRead
+import PdbModel.PdbWrite
 namespace PdbModel
 
 def decBytesTok (t : String) : Option (List Nat) :=
@@ -90,6 +91,98 @@ def handlePdb : List String → Option String
       match utf8Decode bs with
       | none => pure "NOT-UTF8"
       | some cs => pure (outcomeTok (readPdb o (splitLines cs)))
+  | _ => none
+
+end PdbModel
+
+namespace PdbModel
+
+/-! parsing of the `X …` metadata tokens (inverse of `metaToks`) for the writer requests -/
+
+def parseIntsTok (t : String) : Option (Option (List Int)) :=
+  if t == "~" then some none else ((t.splitOn ",").mapM (fun (x : String) => x.toInt?)).map some
+
+def stripPrefix? (t pre : String) : Option String :=
+  if t.startsWith pre then some (t.drop pre.length).toString else none
+
+def parseRemarks : Nat → List String → Option (List (Nat × String) × List String)
+  | 0, ts => some ([], ts)
+  | n + 1, a :: b :: ts => do
+      let (r, ts) ← parseRemarks n ts
+      pure ((← a.toNat?, ← decStr b) :: r, ts)
+  | _, _ => none
+
+def parseMtrix : Nat → List String → Option (List (Nat × List Int × Bool) × List String)
+  | 0, ts => some ([], ts)
+  | n + 1, a :: g :: v :: ts => do
+      let (r, ts) ← parseMtrix n ts
+      let vals ← (v.splitOn ",").mapM (fun (x : String) => x.toInt?)
+      pure ((← a.toNat?, vals, ← tokBool g) :: r, ts)
+  | _, _ => none
+
+def parseSeqPos : List String → Option (SeqPos × List String)
+  | a :: b :: c :: d :: ts => do pure (⟨← a.toInt?, ← decOpt b, ← c.toInt?, ← decOpt d⟩, ts)
+  | _ => none
+
+def parseDiffs : Nat → List String → Option (List SeqDiff × List String)
+  | 0, ts => some ([], ts)
+  | n + 1, rn :: sn :: ins :: dbr :: cm :: ts => do
+      let (r, ts) ← parseDiffs n ts
+      let dbRes ← if dbr == "~" then some none else match dbr.splitOn "/" with
+        | [a, k] => do pure (some (← decStr a, ← k.toInt?))
+        | _ => none
+      pure (⟨← decStr rn, ← sn.toInt?, ← decOpt ins, dbRes, ← decStr cm⟩ :: r, ts)
+  | _, _ => none
+
+def parseDbrefs : Nat → List String → Option (List (Nat × DbRef) × List String)
+  | 0, ts => some ([], ts)
+  | n + 1, gi :: db :: acc :: id :: ts => do
+      let (p1, ts) ← parseSeqPos ts
+      let (p2, ts) ← parseSeqPos ts
+      match ts with
+      | nd :: ts => do
+        let (diffs, ts) ← parseDiffs (← nd.toNat?) ts
+        let (r, ts) ← parseDbrefs n ts
+        pure ((← gi.toNat?, ⟨← decStr db, ← decStr acc, ← decStr id, p1, p2, diffs⟩) :: r, ts)
+      | _ => none
+  | _, _ => none
+
+def parseWMeta : List String → Option (WMeta × List String)
+  | "X" :: id :: rem :: ts => do
+      let id ← decOpt (← stripPrefix? id "id=")
+      let (remarks, ts) ← parseRemarks (← (← stripPrefix? rem "rem=").toNat?) ts
+      match ts with
+      | cell :: sg :: scale :: origx :: mt :: ts => do
+        let cell ← parseIntsTok (← stripPrefix? cell "cell=")
+        let sgt ← stripPrefix? sg "sg="
+        let sg ← if sgt == "~" then some none else sgt.toNat?.map some
+        let scale ← parseIntsTok (← stripPrefix? scale "scale=")
+        let origx ← parseIntsTok (← stripPrefix? origx "origx=")
+        let (mtrix, ts) ← parseMtrix (← (← stripPrefix? mt "mtrix=").toNat?) ts
+        match ts with
+        | db :: ts => do
+          let (dbrefs, ts) ← parseDbrefs (← (← stripPrefix? db "db=").toNat?) ts
+          match ts with
+          | bonds :: ts => do
+            let nb ← (← stripPrefix? bonds "bonds=").toNat?
+            pure (⟨id, remarks, cell, sg, scale, origx, mtrix, dbrefs⟩, ts.drop nb)
+          | _ => none
+        | _ => none
+      | _ => none
+  | _ => none
+
+def bytesTok (cs : List Char) : String :=
+  String.ofList ('b' :: cs.flatMap fun c =>
+    let n := c.toNat
+    if n < 128 then [hexDigit (n / 16), hexDigit (n % 16)] else ['3', 'f'])
+
+def handlePdbWrite : List String → Option String
+  | "write" :: lvl :: rest => do
+      let l ← Strictness.ofString? lvl
+      let (m, rest) ← parseWMeta rest
+      let (p, _) ← parsePDB rest
+      let lines := savePdb l p m
+      pure (bytesTok (lines.flatMap fun ln => ln ++ ['\n']))
   | _ => none
 
 end PdbModel
